@@ -83,4 +83,34 @@ CHECKS["C06"] = dict(
     assumptions=["product order of the mixing matrix is taken from the library (the statement fixes unitarity and mutual consistency only)", "i<j for plane rotations"],
     runs=[run("c06", "c06.cpp", shards=8), run("c06_asan", "c06.cpp", "asan", args=["--reduced"])],
 )
+
+CHECKS["C12"] = dict(
+    level=E,
+    rule="d=2..6; zero, every generator, every two-hot e_i+e_j and e_i+2e_j, every diagonal matrix over {0,1,2}^d (projectors, multiples of identity, all degeneracy patterns), rank-one matrices from six unit vectors, "
+         "dense probes (and 1e+-100 rescalings), rotated degenerate and near-degenerate spectra (eps in {0,1e-6,1e-9,1e-12}, two fixed unitaries); both order flags. "
+         "Self-certifying oracle: finite, |V^dagger V-1|<=1e-10, |MV-V diag L|<=1e-9|M|, ascending when ordered. non-trivial = non-zero input; distinct by component hash and order flag",
+    assumptions=["inputs outside the structured families are not enumerated"],
+    runs=[run("c12", "c12.cpp"), run("c12_asan", "c12.cpp", "asan", args=["--reduced"])],
+)
+
+CHECKS["C07"] = dict(
+    level=E,
+    rule="n=2..6 x 7 matrix families (anti-Hermitian, complex diagonal, nilpotent, dense non-normal, normal with bounded real spectrum, rank one, block 2+(n-2)) x 1-norm grid "
+         "{0,1e-8, 24 (thorough 60) log-spaced values in [1e-4,50], the five Pade thresholds +-1%, and 100/300/1e3 for the anti-Hermitian/normal families}; three estimator RNG seeds (separate runs); "
+         "all 15625 ordered call triples over 25 (size, norm band) representatives on one thread; UTransform(V,i s) for V over generators, two-hot and probes, s in {0,+-0.3,1,-2.5,10}, every d incl. 2. "
+         "Oracle: long-double scaling-and-squaring Taylor reference; relative 1-norm error <= 256 eps max(1,|A|) kappa (kappa=1 for normal families, |e^|A||/|e^A| otherwise); any exception is a violation. "
+         "non-trivial = non-zero matrix / s != 0",
+    assumptions=["matrices outside the seven families and norm grid are not enumerated", "reference conditioning estimate for non-normal inputs"],
+    runs=[run("c07_s0", "c07.cpp"), run("c07_s1", "c07.cpp", seed_offset=1), run("c07_s2", "c07.cpp", seed_offset=2), run("c07_asan", "c07.cpp", "asan", args=["--reduced"])],
+)
+
+CHECKS["C17"] = dict(
+    level=E,
+    rule="nx = 2..65 (every value: all parity patterns of nx-1) x {linear, log} x (a,b) in {(0,1),(-3,5),(1,1e4),(1e-3,7.5),(2,2+1e-9)} (log only a>0) plus three user-supplied irregular sorted grids per nx "
+         "and their unsorted / wrong-size variants; lookup argument: every node, nextafter on both sides of every node, mid and quarter points of every interval, just outside and far outside both ends. "
+         "Oracle: monotone, ends within a few ulp, equal spacing in x / log x, user grid stored bit-exact, bad input rejected with the grid untouched; Get_i(x)=i with i<=nx-2 and x_i<=x<=x_{i+1}; outside throws. "
+         "distinct by (grid, x)",
+    assumptions=["range taken as [x_first,x_last] of the stored nodes", "nx<=65"],
+    runs=[run("c17", "c17.cpp"), run("c17_asan", "c17.cpp", "asan", args=["--reduced"])],
+)
 NOT_APPLICABLE = {}
